@@ -103,6 +103,22 @@ STYLES = {
        "of any message or proposal content, x/custody/types/keys.go or x/gov/types/actor.go, and add no in-memory caches or Go "
        "maps (earlier engineers did all of that). The effect should ideally appear only some operations or blocks after the "
        "faulty step."),
+ '12': ("Prefer one of these styles, whichever fits, and prefer functions and modules listed above that the earlier "
+       "engineers did NOT touch: (a) application wiring in app/app.go and app/export.go: the order of modules in the Begin / End "
+       "blocker and InitGenesis lists, module account permissions, which hooks are registered, a keeper handed to another module "
+       "by value before it is completed, the handlers given to the proposal router; (b) the less visited modules x/distributor, "
+       "x/feeprocessing, x/evidence, x/slashing (signing info, missed-block windows), x/upgrade, x/genutil; (c) the Apply handlers "
+       "of rarely used proposal types (data registry, polls, jail / reset councilors, reset ranks, proposal durations, layer2 "
+       "upsert-dapp / join / transition, token rates, unjail) and the msg-server handlers of rarely used messages (councilor "
+       "claim / pause / activate, polls, identity verification requests with tips, custody password and limits, layer2 sessions "
+       "and bridge); (d) two EndBlockers or an EndBlocker and a message touching the same object in one block: an object deleted "
+       "by one while the other still refers to it, a value read before and written after the other ran; (e) first-block and "
+       "empty-state semantics: height 0 / 1, zero time, empty stores, a missing record treated as a zero record, a module's "
+       "first use; (f) error handling: an error that is logged and swallowed, a panic turned into an error or the other way "
+       "round, a partial write before a returned error on a path whose caller does not roll back. Genesis import / export code "
+       "and app/ante are allowed again in this round, but NOT the files listed above. Do NOT touch x/recovery, x/ethereum, "
+       "GetSigners / GetSignBytes / ValidateBasic of any message or proposal content, and add no in-memory caches or Go maps. "
+       "The effect should ideally appear only some operations or blocks after the faulty step."),
  '5': ("Prefer one of these styles, whichever fits: (a) arithmetic: a changed rounding direction, order of "
        "multiplication and division, integer width or sign conversion that only matters for particular magnitudes; "
        "(b) iteration: an iterator bound, prefix or pagination change that only matters when a second object with a "
